@@ -91,6 +91,15 @@ def cases(tier, inst):
         yield ("sel", sel, None)
         for c in REP1 + [("cmp", "ge", A(X, "p"), L(0))]:
             yield ("sel", sel, c)
+    # a value expression selected through entity(...): the results are the values themselves
+    for term in (A(X, "p"), A(X, "s"), A(X, "t"), A(X, "flag"), ("c", X, "get_p", ()), ("fl", A(X, "items")),
+                 ("i", A(X, "t"), 0)):
+        for c in (None, ("cmp", "ge", A(X, "q"), L(0)), ("cmp", "eq", A(X, "q"), L(0))):
+            if term[0] == "i" and c is None:
+                continue
+            if term[0] == "i":
+                c = ("and", ("cmp", "ne", A(X, "t"), L(())), c)     # x.t[0] only where t is not empty
+            yield ("esel", term, c)
     # field constraints of predicate-form terms
     for kw in ((("p", L(0)),), (("s", L("")),), (("p", L(0)), ("q", L(0))), (("flag", L(False)),), (("t", L(())),),
                (("p", L(1)), ("s", L("a"))), (("q", L(0)), ("s", L("")))):
@@ -119,6 +128,8 @@ def query_of(case):
         return ("Q", "an", "setof", (X, Y), (case[1],), (VX, VY)), "query"
     if fam in ("sel", "flat"):
         return ("Q", "an", "setof", tuple(case[1]), (case[2],) if case[2] else (), (VX,)), "query"
+    if fam == "esel":
+        return ("Q", "an", "entity", case[1], (case[2],) if case[2] else (), (VX,)), "query"
     if fam == "field":
         term = ("pform", "Item", "FA", (), case[1])
         if case[2] == "kw":
@@ -149,6 +160,14 @@ def run_case(case, inst):
             else:
                 exp = [(ref.value(q[3], env),) for env in ref.solutions(q)]
             total = len(world["FA"])
+        elif fam == "esel":
+            try:
+                obj, b = Q.build(q, world, inst, mode=mode)
+                got = [(r,) for r in obj.evaluate()]
+            except Exception as e:
+                got = exc_obs(e)
+            exp = [(ref.value(q[3], env),) for env in ref.solutions(q)]
+            total = None
         else:
             got = eval_rows(q, world, inst)
             sols = ref.solutions(q)
@@ -157,7 +176,7 @@ def run_case(case, inst):
         return got, exp, total
 
     got, exp, total = run_isolated(body)
-    d = diff_rows(got, exp, count=fam in ("cond1", "cond2", "field", "ctor", "flat"))
+    d = diff_rows(got, exp, count=fam in ("cond1", "cond2", "field", "ctor", "flat", "esel"))
     res = {"ok": d is None, "nontrivial": len(exp) > 0 and (total is None or len(exp) < total) if fam != "cond1"
            else 0 < len(exp) < len(FA), "transitions": 1 + (0 if is_exc(got) else len(got)),
            "tags": [f"family={fam}"], "outcome": f"{fam}:{len(exp)}"}
